@@ -806,6 +806,268 @@ func (e *emitter) c04PackageVars(s *source, rel, lean string) {
 	e.stringList(lean, "package-level variables of "+rel+" (state that outlives a call)", out)
 }
 
+// ---------------------------------------------------------------------------------------------------------------
+// c04glue: the zrpc CONFIGURATION glue as Lean decision functions (round 5c).  Values: a ClientOption is `Option Int`
+// (`some t` = WithTimeout(t), `none` = any other option), interceptor installation is `Option <arguments>`.
+
+// glueEx: c04sem.ex plus time.Duration(x) conversions, time.Millisecond and variadic arguments.
+func (c *c04sem) glueEx(e ast.Expr) string {
+	switch x := e.(type) {
+	case *ast.ParenExpr:
+		return c.glueEx(x.X)
+	case *ast.CallExpr:
+		if c.s.src(x.Fun) == "time.Duration" && len(x.Args) == 1 {
+			return c.glueEx(x.Args[0])
+		}
+	case *ast.SelectorExpr:
+		if u, ok := timeUnits[x.Sel.Name]; ok && c.s.src(x.X) == "time" {
+			return fmt.Sprint(u)
+		}
+	case *ast.BinaryExpr:
+		switch x.Op {
+		case token.MUL, token.ADD, token.SUB:
+			return "(" + c.glueEx(x.X) + " " + x.Op.String() + " " + c.glueEx(x.Y) + ")"
+		case token.LAND:
+			return "(" + c.glueEx(x.X) + " && " + c.glueEx(x.Y) + ")"
+		case token.LOR:
+			return "(" + c.glueEx(x.X) + " || " + c.glueEx(x.Y) + ")"
+		}
+	}
+	return c.ex(e)
+}
+
+func (e *emitter) c04GlueGuard(lean, goName string, f func(c *c04sem) string, c *c04sem, sig string) {
+	var body string
+	func() {
+		defer func() {
+			if r := recover(); r != nil {
+				te, ok := r.(c04semErr)
+				if !ok {
+					panic(r)
+				}
+				e.errors = append(e.errors, goName+" ("+lean+"): "+te.msg)
+				body = ""
+			}
+		}()
+		body = f(c)
+	}()
+	if body == "" {
+		e.printf("/-- UNTRANSLATABLE: %s -/\ndef %s : Unit := ()\n\n", goName, lean)
+		return
+	}
+	e.printf("/-- translated (c04glue) from `%s` -/\ndef %s %s :=\n  %s\n\n", goName, lean, sig, body)
+}
+
+// c04GlueInstall: the function installs interceptors with top-level `if cond { … F(args) … }` statements; the ONE statement
+// that mentions `target` becomes `if cond then some (args…) else none`.  The target anywhere else (nested, twice, in a
+// loop, unconditional) is outside the subset.
+func (e *emitter) c04GlueInstall(c *c04sem, rel, goName, lean, sig, target string) {
+	e.c04GlueGuard(lean, goName, func(c *c04sem) string {
+		fd := c.s.findFunc(rel, goName)
+		if fd == nil {
+			c.fail("not found in %s", rel)
+		}
+		out := ""
+		for _, st := range fd.Body.List {
+			if !strings.Contains(c.s.src(st), target) {
+				continue
+			}
+			ifs, ok := st.(*ast.IfStmt)
+			if !ok || ifs.Init != nil || ifs.Else != nil || len(ifs.Body.List) != 1 || out != "" {
+				c.fail("%s is not installed by exactly one plain `if cond { install }`: %s", target, c.s.src(st))
+			}
+			var call *ast.CallExpr
+			n := 0
+			ast.Inspect(ifs.Body.List[0], func(m ast.Node) bool {
+				if ce, ok := m.(*ast.CallExpr); ok && strings.HasSuffix(c.s.src(ce.Fun), target) {
+					call = ce
+					n++
+				}
+				return true
+			})
+			if call == nil || n != 1 {
+				c.fail("no single call of %s in %s", target, c.s.src(ifs.Body.List[0]))
+			}
+			var args []string
+			for _, a := range call.Args {
+				args = append(args, c.glueEx(a))
+			}
+			out = fmt.Sprintf("if %s then some (%s) else none", c.glueEx(ifs.Cond), strings.Join(args, ", "))
+		}
+		if out == "" {
+			c.fail("%s is never installed", target)
+		}
+		return out
+	}, c, sig)
+}
+
+// c04GlueOptList: `var opts []ClientOption; [if cond {] opts = append(opts, X) [}] …; opts = append(opts, options...)`.
+// X = WithTimeout(e) -> [some e]; any other X -> [none]; an untranslatable condition guarding a non-timeout option is the
+// environment `other k` (k-th such condition): the Tie quantifies over it.
+func (e *emitter) c04GlueOptList(c *c04sem, rel, goName, lean, sig, list string) {
+	e.c04GlueGuard(lean, goName, func(c *c04sem) string {
+		fd := c.s.findFunc(rel, goName)
+		if fd == nil {
+			c.fail("not found in %s", rel)
+		}
+		nOther := 0
+		var lets []string
+		elem := func(st ast.Stmt) (string, bool) {
+			as, ok := st.(*ast.AssignStmt)
+			if !ok || len(as.Lhs) != 1 || len(as.Rhs) != 1 || c.s.src(as.Lhs[0]) != list {
+				return "", false
+			}
+			call, ok := as.Rhs[0].(*ast.CallExpr)
+			if !ok || c.s.src(call.Fun) != "append" || len(call.Args) != 2 || c.s.src(call.Args[0]) != list {
+				c.fail("unsupported assignment to %s: %s", list, c.s.src(st))
+			}
+			if call.Ellipsis.IsValid() {
+				return c.glueEx(call.Args[1]), true
+			}
+			if inner, ok := call.Args[1].(*ast.CallExpr); ok && c.s.src(inner.Fun) == "WithTimeout" && len(inner.Args) == 1 {
+				return "[some " + c.glueEx(inner.Args[0]) + "]", true
+			}
+			if strings.Contains(c.s.src(call.Args[1]), "Timeout") {
+				c.fail("option mentions Timeout but is not WithTimeout(e): %s", c.s.src(st))
+			}
+			return "[none]", true
+		}
+		for _, st := range fd.Body.List {
+			if !strings.Contains(c.s.src(st), list) {
+				continue
+			}
+			switch x := st.(type) {
+			case *ast.DeclStmt:
+				continue
+			case *ast.AssignStmt:
+				if el, ok := elem(x); ok {
+					lets = append(lets, el)
+					continue
+				}
+				if strings.Contains(c.s.src(x.Rhs[0]), list) && c.s.src(x.Lhs[0]) != list {
+					continue // a use of the list (handed on): pinned by the forwarded-arguments Tie
+				}
+			case *ast.IfStmt:
+				if x.Init == nil && x.Else == nil && len(x.Body.List) == 1 {
+					if el, ok := elem(x.Body.List[0]); ok {
+						cond := ""
+						if el == "[none]" {
+							// an option that does not touch the timeout: its condition is the environment
+							cond = fmt.Sprintf("other %d", nOther)
+							nOther++
+						} else {
+							tr := false
+							if cond, tr = c.tryGlue(x.Cond); !tr {
+								c.fail("untranslatable condition guards a timeout option: %s", c.s.src(x))
+							}
+						}
+						lets = append(lets, fmt.Sprintf("(if %s then %s else [])", cond, el))
+						continue
+					}
+				}
+				if !strings.Contains(c.s.src(x.Body), list+" =") {
+					continue
+				}
+			case *ast.ReturnStmt, *ast.ExprStmt:
+				continue
+			}
+			c.fail("unsupported statement on %s: %s", list, c.s.src(st))
+		}
+		return "([] : List (Option Int)) ++ " + strings.Join(lets, " ++ ")
+	}, c, sig)
+}
+
+func (c *c04sem) tryGlue(e ast.Expr) (s string, ok bool) {
+	defer func() {
+		if r := recover(); r != nil {
+			if _, is := r.(c04semErr); is {
+				s, ok = "", false
+				return
+			}
+			panic(r)
+		}
+	}()
+	return c.glueEx(e), true
+}
+
+// c04GlueDial: buildDialOptions: `var cliOpts ClientOptions; for _, opt := range opts { opt(&cliOpts) }` and the argument of
+// `c.buildUnaryInterceptors(·)`; with `WithTimeout(timeout)`'s body `options.Timeout = <e>` as the effect of `some timeout`.
+func (e *emitter) c04GlueDial(c *c04sem, rel string) {
+	e.c04GlueGuard("cliGlueApplyOpt", "WithTimeout (zrpc/internal/client.go)", func(c *c04sem) string {
+		fd := c.s.findFunc(rel, "WithTimeout")
+		if fd == nil {
+			c.fail("not found")
+		}
+		fl := c04FuncLit(fd, 1, 0)
+		if fl == nil || len(fl.Body.List) != 1 {
+			c.fail("WithTimeout is not a one-statement option")
+		}
+		as, ok := fl.Body.List[0].(*ast.AssignStmt)
+		if !ok || len(as.Lhs) != 1 || !strings.HasSuffix(c.s.src(as.Lhs[0]), ".Timeout") || as.Tok != token.ASSIGN {
+			c.fail("WithTimeout does not assign .Timeout: %s", c.s.src(fl.Body.List[0]))
+		}
+		return "match opt with\n  | some timeout => " + c.glueEx(as.Rhs[0]) + "\n  | none => options_Timeout"
+	}, c, "(options_Timeout : Int) (opt : Option Int) : Int")
+	e.c04GlueGuard("cliGlueDialTimeout", "client.buildDialOptions", func(c *c04sem) string {
+		fd := c.s.findFunc(rel, "client.buildDialOptions")
+		if fd == nil {
+			c.fail("not found")
+		}
+		zero, loop, arg := false, false, ""
+		for _, st := range fd.Body.List {
+			txt := c.s.src(st)
+			switch x := st.(type) {
+			case *ast.DeclStmt:
+				if txt == "var cliOpts ClientOptions" {
+					zero = true
+				}
+			case *ast.RangeStmt:
+				if strings.Contains(txt, "cliOpts") {
+					if !zero || loop || arg != "" || c.s.src(x.X) != "opts" || x.Value == nil || len(x.Body.List) != 1 ||
+						c.s.src(x.Body.List[0]) != c.s.src(x.Value)+"(&cliOpts)" {
+						c.fail("unsupported option loop %s", txt)
+					}
+					loop = true
+				}
+			default:
+				if strings.Contains(txt, "cliOpts.Timeout") || strings.Contains(txt, "buildUnaryInterceptors") {
+					n := 0
+					ast.Inspect(st, func(m ast.Node) bool {
+						if ce, ok := m.(*ast.CallExpr); ok && c.s.src(ce.Fun) == "c.buildUnaryInterceptors" && len(ce.Args) == 1 {
+							arg = c.glueEx(ce.Args[0])
+							n++
+						}
+						return true
+					})
+					if n != 1 || !loop {
+						c.fail("unsupported use of cliOpts.Timeout: %s", txt)
+					}
+				} else if strings.Contains(txt, "cliOpts =") || strings.Contains(txt, "&cliOpts") {
+					c.fail("cliOpts changed outside the option loop: %s", txt)
+				}
+			}
+		}
+		if arg == "" {
+			c.fail("buildUnaryInterceptors is not called")
+		}
+		return "let cliOpts_Timeout := opts.foldl (fun cliOpts_Timeout opt => cliGlueApplyOpt cliOpts_Timeout opt) 0\n  " + arg
+	}, c, "(opts : List (Option Int)) : Int")
+}
+
+func (e *emitter) c04Glue(s *source) {
+	e.printf("/-! ### c04glue: the zrpc configuration glue, translated -/\n\n")
+	c := &c04sem{s: s, fields: map[string]string{}, funcs: map[string]bool{}, thunks: map[string]bool{}}
+	e.c04GlueInstall(c, "zrpc/server.go", "setupUnaryInterceptors", "srvGlueTimeoutIcpt",
+		"(c_Timeout : Int) (c_MethodTimeouts : List (Nat × Int)) : Option (Int × List (Nat × Int))", "UnaryTimeoutInterceptor")
+	e.c04GlueInstall(c, "zrpc/internal/client.go", "client.buildUnaryInterceptors", "cliGlueTimeoutIcpt",
+		"(c_middlewares_Timeout : Bool) (timeout : Int) : Option Int", "TimeoutInterceptor")
+	e.c04GlueOptList(c, "zrpc/client.go", "NewClient", "cliGlueConfOpts",
+		"(c_Timeout : Int) (options : List (Option Int)) (other : Nat → Bool) : List (Option Int)", "opts")
+	e.c04GlueDial(c, "zrpc/internal/client.go")
+	e.c04GuardedDef(s, "zrpc/internal/client.go", "NewClient", "zrpcCliInternalNew", []string{"opts"})
+	e.c04GuardedDef(s, "zrpc/internal/client.go", "client.dial", "zrpcCliDial", []string{"buildDialOptions", "options..."})
+}
+
 func (e *emitter) c04Semantic(s *source) {
 	const th = "rest/handler/timeouthandler.go"
 	const srv = "zrpc/internal/serverinterceptors/timeoutinterceptor.go"
@@ -966,5 +1228,6 @@ func init() {
 			e.stringList("fxFlow", "MISSING", []string{"MISSING"})
 		}
 		e.c04Semantic(s)
+		e.c04Glue(s)
 	})
 }
